@@ -193,6 +193,9 @@ fn c06_one_config(ctx: &Ctx, rep: &mut Report, script_seed: u64, version: Versio
 }
 
 pub fn run_c06(ctx: &Ctx, rep: &mut Report) {
+    if crate::props::huge::maybe_run(ctx, rep, "beyond 4 GiB", 0) {
+        return;
+    }
     let mut i = 0;
     while let Some(case) = ctx.next_case(&mut i) {
         let mut rng = ctx.case_rng(case);
@@ -651,6 +654,9 @@ fn c07_case(ctx: &Ctx, rep: &mut Report, rng: &mut Rng, version: Version, bufsiz
 }
 
 pub fn run_c07(ctx: &Ctx, rep: &mut Report) {
+    if crate::props::huge::maybe_run(ctx, rep, "beyond 4 GiB", 5) {
+        return;
+    }
     let mut i = 0;
     while let Some(case) = ctx.next_case(&mut i) {
         let mut rng = ctx.case_rng(case);
